@@ -79,7 +79,7 @@ var checks = map[string]check{
 	"C02": {
 		ID: "C02", Pkg: "c02", NeedBin: true, MaxPar: 8,
 		Jobs: []job{
-			{Run: "^TestWire$", Quick: 5, QShards: 8, Thor: 60, TShards: 14},
+			{Run: "^TestWire$", Quick: 10, QShards: 8, Thor: 60, TShards: 14},
 		},
 		Rule:   "one rapid case = one generated program (1-2 files, every struct-like plus synthesized args/result) under a drawn presentation-only option set, built into a driver binary, then 10-30 (struct, value, perturbation) evaluations: Write bytes decoded by the strict reference decoder, reference encodings (both field orders) read back and dumped by reflection, unknown fields inserted at any nesting level, a field retagged with another wire type, a required field omitted, unions with 0 or 2 members; non-trivial = perturbation case, or a value with a nested container/struct and at least one unset optional; distinct by program, configuration, struct, value and mode",
 		Assume: []string{"an optional field with a declared default that holds the default is the same value as an unset one (the property says so); nil and empty containers are the same for non-optional fields", "struct names are unique program-wide, so a Go type is matched to its IDL struct by the name its own Write passes to WriteStructBegin", "programs the compiler rejects or whose output does not compile are counted (status classes) and left to C01/C04"},
